@@ -3,9 +3,14 @@
 
   "Rating" is the order the source gives the buffer key `(Policy, entirely_free)`
   (`derive(Ord)` on `Policy`, lexicographic tuples): `keyLe`.
+
+  * `sorted_buffer_add_matches_source` — the array code of `SortedBuffer::add` is re-derived from the
+    Rust source on every run (`tools/rs2lean.py`, `Gen/Sbuf.lean`) and proved to compute the model's
+    list operation (`Proofs/GenSbuf.lean`).
 -/
 import LLFreeV.Proofs.SortedBuffer
 import LLFreeV.Proofs.Run
+import LLFreeV.Proofs.GenSbuf
 namespace LLFree.C16
 open LLFree SortedBuffer
 
@@ -160,5 +165,14 @@ theorem searchBest_fallback {β : Type} (tf ntrees nbuf start offset len : Nat) 
 /-- Non-vacuity / regression: capacity 3, ratings inserted as 1,3,2,5,4 keep 3,4,5 (the fixed
     defect F10 kept 3,2,1). -/
 example : (addAll (fun (a b : Nat) => decide (a ≤ b)) 3 [1, 3, 2, 5, 4]) = [3, 4, 5] := by decide
+
+/-- **`SortedBuffer::add` of the model is the array code of the current source**: the body of `add` is
+    regenerated from `core/src/util.rs` on every run (`Gen/Sbuf.lean`: the two `position` searches, the
+    `rotate_right(1)` / `rotate_left(1)` of the sub-slices and the element assignments as written); on the
+    array that holds the values `l` (a prefix of `Some`s followed by `None`s — every buffer reachable from
+    `SortedBuffer::new()`) it computes exactly the list operation the theorems above are about. -/
+theorem sorted_buffer_add_matches_source {τ : Type} (le : τ → τ → Bool) (n : Nat) (l : List τ) (v : τ) (hl : l.length ≤ n) :
+    Gen.S.add le n (GenTree.embed n l) v = GenTree.embed n (SortedBuffer.add le n l v) :=
+  GenTree.sbuf_add_eq le n l v hl
 
 end LLFree.C16
